@@ -23,7 +23,7 @@ theorem c16_quiescent (hn : 0 < n) (hr : ReachableX n s) (hid : ∀ t, s.thr t =
     retry after room was made succeeds -/
 theorem c16_solo_send (hn : 0 < n) (hr : ReachableX n s) (t v : Nat)
     (hothers : ∀ u, u ≠ t → s.thr u = .idle) (ht : s.thr t = .idle) :
-    let s' := run s [.send t v, .step t, .step t, .step t, .step t]
+    let s' := run s [.send t v, .step t, .step t, .step t, .step t, .step t]
     ((abs s).length < s.N →
         s'.thr t = .done (.sent ((abs s).length + 1)) ∧ abs s' = abs s ++ [v]) ∧
     ((abs s).length = s.N →
